@@ -292,6 +292,9 @@ def run(chk, prog, tier):
     chk.guard('openssl ecdsa layout', check_openssl_ecdsa, chk, prog, env, model)
     chk.guard('gnutls ecdsa layout', check_gnutls_ecdsa, chk, prog, env, model)
     chk.guard('token assembly', c10.check_assembly, chk, prog, env, model)
+    chk.guard('signing length', c10.check_buffers, chk, prog, env, model)
+    from props import c11
+    chk.guard('encoder length fact', c11.check_url_maps, chk, prog, model)
     chk.guard('signing input', c01.check_signing_input, chk, prog, env, model)
     chk.guard('parser agreement', check_parser_agreement, chk, prog, env, model)
     chk.assumptions += ['that a token actually verifies (runtime crypto), JSON equality through jansson dump/load and the base64 round trip are NOT '
